@@ -68,7 +68,7 @@ CHECKS = {
             "'Every code path' is a structural quantifier: this family shows it only for the send sites the coverage matrix proves were reached. Trusts stdlib AES-GCM and the oracle-side framing.",
             "transport-tap decryption oracle + canary scan with required send-site coverage", "DESIGN.md §3 C15"),
     "C13": ("E3-hostile-input (child process per batch, journal before injection)", "fault_enumeration",
-            "Fault enumeration over genuine traffic: every truncation, per-position byte edits, every single bit (items <= 256 B), type-byte sweeps, label-header variants, structurally hostile plaintexts and decompression bombs on the packet path; every cut point (FIN or stall), bit flips, over-cap declarations, bombs, 140 concurrent stalled push/pulls and a handler-stuck flood on the stream path - per configuration (label x encryption x verify-incoming x compression). Monitors: process survival (journal names the fatal input), digest equality for inputs the oracle-side codec finds undecodable, listener liveness probes, leak checks after TCPTimeout (connections, pending-probe records, push/pull counter, goroutines), bytes consumed after an over-cap header, handoff queue depth. A third part sends well-formed but odd membership data (version vectors of 0-12 entries, odd address lengths, states outside the enum, empty or own names) by push/pull and gossip to victims that are alone, have peers or have left, with the merge/alive delegates set: survival, continued service, no leaks. ~280 k inputs in the quick tier; thorough enumerates all positions.",
+            "Fault enumeration over genuine traffic: every truncation, per-position byte edits, every single bit (items <= 256 B), type-byte sweeps, label-header variants, structurally hostile plaintexts and decompression bombs on the packet path; every cut point (FIN or stall), bit flips, over-cap declarations, bombs, 140 concurrent stalled push/pulls and a handler-stuck flood on the stream path - per configuration (label x encryption x verify-incoming x compression). Monitors: process survival (journal names the fatal input), digest equality for inputs the oracle-side codec finds undecodable, listener liveness probes, leak checks after TCPTimeout (connections, pending-probe records, push/pull counter, goroutines), bytes consumed after an over-cap header, handoff queue depth. A third part sends well-formed but odd membership data (version vectors of 0-12 entries, odd address lengths, states outside the enum, empty or own names) by push/pull and gossip to victims that are alone, have peers or have left, with the merge/alive delegates set: survival, continued service, no leaks; a nack flood for the sequence number of a probe in flight must not stop the packet listener; with a parked merge delegate at most 128 join push/pulls may be in progress. ~280 k inputs in the quick tier; thorough enumerates all positions.",
             "The enumeration is complete for single-bit/single-byte edits and truncations of the chosen genuine items in thorough, sampled by stride in quick; it says nothing about multi-byte edits beyond the listed generators. Trusts the oracle-side codec's notion of 'well-formed'.",
             "mutation enumeration with crash/effect/liveness/leak/cap monitors", "DESIGN.md §3 C13"),
     "C14": ("E3-hostile-input", "fault_enumeration",
@@ -76,7 +76,7 @@ CHECKS = {
             "Enumeration is complete over single-bit edits and truncations of the chosen items in thorough (strided over the ciphertext body in quick). Trusts stdlib AES-GCM and the oracle-side framing.",
             "effect-equivalence oracle over enumerated ciphertext modifications", "DESIGN.md §3 C14"),
     "C19": ("E2-rig (all peers are scripted fake peers)", "exploration",
-            "Runtime monitor in virtual time where the harness decides when every ack, nack, relayed ack and TCP-fallback reply arrives: prober oracle (answered <=> an ack with the probe's own number before the awareness-scaled deadline <=> not suspected), exact health-score accounting read at the instant each probe ends (-1 / +missed nacks / +1, clamped, unchanged when the ping could not even be sent), relay oracle on 60 indirect-ping requests per case (one forwarded ping with a non-pending number; one relayed ack under the requester's number iff the target answered within the probe timeout; one nack iff requested and no timely ack - also when the relay's own ping could not be sent), handler cleanup after all deadlines.",
+            "Runtime monitor in virtual time where the harness decides when every ack, nack, relayed ack and TCP-fallback reply arrives: prober oracle (answered <=> an ack with the probe's own number before the awareness-scaled deadline <=> not suspected), exact health-score accounting read at the instant each probe ends (-1 / +missed nacks / +1, clamped, unchanged when the ping could not even be sent), relay oracle on 60 indirect-ping requests per case (one forwarded ping with a non-pending number; one relayed ack under the requester's number iff the target answered within the probe timeout; one nack iff requested and no timely ack - also when the relay's own ping could not be sent, and per requester when two requests overlap), with the sequence counter wrapping around 2^32 mid-probe in a quarter of the scenarios, handler cleanup after all deadlines.",
             "Scripted arrivals stay >= 5 ms from every deadline. Trusts synctest timing, the wire codec, the accessor for pending-probe records.",
             "scripted-arrival oracle on probe outcome, relay traffic and health accounting (virtual time)", "DESIGN.md §3 C19"),
     "C09": ("E1-simnet (cut-at-byte streams) + E2-rig (scripted peer)", "fault_enumeration",
@@ -84,7 +84,7 @@ CHECKS = {
             "Cut completeness is judged by the bytes really written on that connection (compressed state size varies with table order). Trusts the simulated stream (ordered, cut or reset at a byte offset), the wire codec.",
             "cut-at-every-byte enumeration with digest-equality oracle + exchange/hearsay monitors", "DESIGN.md §3 C09"),
     "C20": ("E2-rig stage scripts (virtual time) + E4 real sockets under -race", "exploration",
-            "Runtime monitor: (A) every public call at every lifecycle stage (created, joined, leaving, left, left-and-aged, shut down) alone and in PRNG combinations incl. overlapping Shutdown calls on a transport whose shutdown takes time, each call under recover with a virtual-time watchdog; panics (other than the documented Leave-after-Shutdown), blocked calls, overrun timeouts, a datagram accepted by the transport after a Shutdown call returned, and goroutines surviving Shutdown are violations; (B) loopback NetTransport clusters with millisecond intervals hammered from 6 goroutines while two Leave and two Shutdown calls race, under the Go race detector (every deduplicated report is a violation), with post-shutdown marked messages and port re-binding checks; (C) Shutdown during the TCP-fallback phase of a probe of a black-holed member: one awareness-scaled probe interval later no goroutine of that probe may remain (virtual time); (D) on real sockets a push/pull reply blocked by a peer that stopped reading must not block Leave(300 ms), Members or LocalNode (limit 8 s against a 40 s stream timeout). A process-level stall detector reports mutex deadlocks.",
+            "Runtime monitor: (A) every public call at every lifecycle stage (created, joined, leaving, left, left-and-aged, shut down) alone and in PRNG combinations incl. overlapping Shutdown calls on a transport whose shutdown takes time, each call under recover with a virtual-time watchdog; panics (other than the documented Leave-after-Shutdown), blocked calls, overrun timeouts, a datagram accepted by the transport after a Shutdown call returned, and goroutines surviving Shutdown are violations; (B) loopback NetTransport clusters with millisecond intervals hammered from 6 goroutines while two Leave and two Shutdown calls race, under the Go race detector (every deduplicated report is a violation), with post-shutdown marked messages and port re-binding checks; (C) Shutdown during the TCP-fallback phase of a probe of a black-holed member: one awareness-scaled probe interval later no goroutine of that probe may remain (virtual time); (D) on real sockets a push/pull reply blocked by a peer that stopped reading must not block Leave(300 ms), Members or LocalNode (limit 8 s against a 40 s stream timeout), and Shutdown must return while the application's NotifyMsg is stuck and more datagrams keep arriving; (E) the last node standing (every other member has left, records not yet reaped) calls Leave / UpdateNode: prompt return without error. A process-level stall detector reports mutex deadlocks.",
             "Overlapping Leave calls cannot run in a synctest bubble (the second parks on a mutex whose holder waits on the fake clock) and are exercised only in part B. Real-time watchdogs are inconclusive, never violations. Race detection covers only interleavings that occurred.",
             "stage x call scripts with panic/blocked-call/leak/post-shutdown-traffic monitors + race detector on real sockets", "DESIGN.md §3 C20"),
 }
